@@ -388,6 +388,7 @@ impl<'a> Builder<'a> {
                 erase(s.map(move |mut r: Rec| {
                     crash_tick(crash, &calls);
                     let acc = state.as_ref().map_or(0, |h| h.get().acc);
+                    f.side_effect(r.v);
                     r.v = f.apply(r.v, acc);
                     r
                 }))
